@@ -22,8 +22,9 @@ class Base:
         self.values = []
         self.calls = 0
 
-    def __call__(self, x):
+    def __call__(self, x, *args, **kwargs):
         self.calls += 1
+        self.last_args = (args, dict(kwargs))
         return self.values[self.calls - 1]
 
 
@@ -75,7 +76,13 @@ def main(table_path, out_path):
                     n_eval += 1
                     x = np.array([0.1 * j, 0.6])
                     before = base.calls
-                    r = top.evaluate(x)
+                    # evaluate(phenome, *args, **kwargs): extra arguments belong to the objective and must arrive unchanged
+                    extra = [((), {}), ((7,), {}), ((), {"scale": 0.5}), ((3, "a"), {"scale": 2.0, "tag": None})][(li + j) % 4]
+                    base.last_args = None
+                    r = top.evaluate(x, *extra[0], **extra[1])
+                    if base.calls == before + 1 and base.last_args != (extra[0], extra[1]):
+                        viol.append({"clause": "C16_Transparent", "signature": f"{sig0} call#{j + 1}",
+                                     "detail": {"passed": repr(extra), "objective_received": repr(base.last_args)}})
                     sig = f"{sig0} call#{j + 1}"
                     expected_ret = worst if exp["ret"] == "worst" else vals[base.calls - 1] if base.calls > before else None
                     if exp["ret"] == "worst":
